@@ -91,29 +91,29 @@ Proof. exact store_is_local. Qed.
 Print Assumptions store_touches_no_other_handle.
 
 (* MOVE transfers the content and leaves the source empty (vmoved s: nil slice / empty value / zero) *)
-Theorem move_empties_source : forall sc st h1 p1 j1 h2 p2 j2 st',
+Theorem move_empties_source : forall sc st h1 p1 j1 h2 p2 j2 st', h1 <> h2 ->
   cstep sc st (OMoveSlot h1 p1 j1 h2 p2 j2) = (st', 0) ->
   exists s, aread_slot (abs_state st) h1 p1 j1 = Some s /\ aread_slot (abs_state st') h2 p2 j2 = Some s /\
             aread_slot (abs_state st') h1 p1 j1 = Some (vmoved s).
-Proof. exact (fun sc st h1 p1 j1 h2 p2 j2 st' H => a_move_slot sc _ h1 p1 j1 h2 p2 j2 _ (cstep_astep _ _ _ _ _ H)). Qed.
+Proof. exact (fun sc st h1 p1 j1 h2 p2 j2 st' Hne H => a_move_slot sc _ h1 p1 j1 h2 p2 j2 _ Hne (cstep_astep _ _ _ _ _ H)). Qed.
 Print Assumptions move_empties_source.
 
-Theorem move_struct_empties_source : forall sc st n h1 p1 h2 p2 st',
+Theorem move_struct_empties_source : forall sc st n h1 p1 h2 p2 st', h1 <> h2 ->
   cstep sc st (OMoveRow n h1 p1 h2 p2) = (st', 0) ->
   exists s, aread_row (abs_state st) h1 p1 = Some s /\ aread_row (abs_state st') h2 p2 = Some s /\
             aread_row (abs_state st') h1 p1 = Some (vzero_row sc n).
-Proof. exact (fun sc st n h1 p1 h2 p2 st' H => a_move_row sc _ n h1 p1 h2 p2 _ (cstep_astep _ _ _ _ _ H)). Qed.
+Proof. exact (fun sc st n h1 p1 h2 p2 st' Hne H => a_move_row sc _ n h1 p1 h2 p2 _ Hne (cstep_astep _ _ _ _ _ H)). Qed.
 Print Assumptions move_struct_empties_source.
 
 (* in particular a move from an EMPTY source overrides the destination: it reads empty afterwards (the
    boundary case that an "if len(src) == 0 { return }" shortcut gets wrong) *)
-Theorem move_from_empty_overrides_destination : forall sc st h1 p1 j1 h2 p2 j2 st',
+Theorem move_from_empty_overrides_destination : forall sc st h1 p1 j1 h2 p2 j2 st', h1 <> h2 ->
   cstep sc st (OMoveSlot h1 p1 j1 h2 p2 j2) = (st', 0) ->
   aread_slot (abs_state st) h1 p1 j1 = Some (VS []) ->
   aread_slot (abs_state st') h2 p2 j2 = Some (VS []).
 Proof.
-  exact (fun sc st h1 p1 j1 h2 p2 j2 st' H E =>
-    match a_move_slot sc _ h1 p1 j1 h2 p2 j2 _ (cstep_astep _ _ _ _ _ H) with
+  exact (fun sc st h1 p1 j1 h2 p2 j2 st' Hne H E =>
+    match a_move_slot sc _ h1 p1 j1 h2 p2 j2 _ Hne (cstep_astep _ _ _ _ _ H) with
     | ex_intro _ s (conj A (conj B _)) =>
         eq_ind_r (fun x => aread_slot (abs_state st') h2 p2 j2 = x) B
                  (eq_sym (eq_trans (eq_sym A) E))
@@ -126,12 +126,12 @@ Proof. exact (fun l t z => conj eq_refl (conj eq_refl eq_refl)). Qed.
 Print Assumptions moved_is_empty.
 
 (* MOVE-AND-APPEND: destination = old destination followed by old source, in order; source empty *)
-Theorem move_append_keeps_order : forall sc st c h1 p1 j1 h2 p2 j2 st',
+Theorem move_append_keeps_order : forall sc st c h1 p1 j1 h2 p2 j2 st', h1 <> h2 ->
   cstep sc st (OMoveAppend c h1 p1 j1 h2 p2 j2) = (st', 0) ->
   exists s d, aread_slot (abs_state st) h1 p1 j1 = Some s /\ aread_slot (abs_state st) h2 p2 j2 = Some d /\
               aread_slot (abs_state st') h2 p2 j2 = Some (on_vs (fun d => VS (vs_rows d ++ vs_rows s)) d) /\
               aread_slot (abs_state st') h1 p1 j1 = Some (VS []).
-Proof. exact (fun sc st c h1 p1 j1 h2 p2 j2 st' H => a_move_append sc _ c h1 p1 j1 h2 p2 j2 _ (cstep_astep _ _ _ _ _ H)). Qed.
+Proof. exact (fun sc st c h1 p1 j1 h2 p2 j2 st' Hne H => a_move_append sc _ c h1 p1 j1 h2 p2 j2 _ Hne (cstep_astep _ _ _ _ _ H)). Qed.
 Print Assumptions move_append_keeps_order.
 
 (* REMOVE-IF keeps exactly the elements whose predicate is false, in their order *)
@@ -272,3 +272,14 @@ Print Assumptions load_preserves_sep.
 Theorem sep_from_arbitrary_contents : forall sc vs p, sep (fst (run_c sc (cload_all cstate0 vs) p)).
 Proof. exact (fun sc vs p => sep_run sc p _ (proj1 (arbitrary_contents vs))). Qed.
 Print Assumptions sep_from_arbitrary_contents.
+
+(* MOVES INSIDE ONE PAYLOAD.  The model also executes MoveTo / MoveAndAppendTo between two DIVERGING positions of the same
+   handle (renaming an attribute: m.Get(a).MoveTo(m.PutEmpty(b)); body -> attribute of one log record; element -> element of
+   one slice); refines, sep_preserved, readonly_total cover them like every other step.  For a slot move inside one handle:
+   the destination reads the old source and the source reads empty *)
+Theorem move_within_one_payload : forall sc st h p1 j1 p2 j2 st',
+  cstep sc st (OMoveSlot h p1 j1 h p2 j2) = (st', 0) ->
+  exists r r' s, arow_of (abs_state st) h = Some r /\ arow_of (abs_state st') h = Some r' /\
+                 aslot r p1 j1 = Some s /\ aslot r' p2 j2 = Some s /\ aslot r' p1 j1 = Some (vmoved s).
+Proof. exact (fun sc st h p1 j1 p2 j2 st' H => a_move_slot_same sc _ h p1 j1 p2 j2 _ (cstep_astep _ _ _ _ _ H)). Qed.
+Print Assumptions move_within_one_payload.
